@@ -483,6 +483,24 @@ def run(tier, seed):
             chk.dist["differs:" + trig] += 1
             chk.fail(trig, "fill content / child template under nested loops does not see the loop state of its own iteration (%s)" % name,
                      {"program": prog, "implementation": o, "expected": expected, **describe(prog)})
+    # outside the calculus: `... as var` tags directly in a component body (a binding between tag and fill that is written into
+    # the layer on top while the body renders); expected output computed from the binder; isolated mode also as a two-run pair
+    for name, prog, expected, partner in U.asvar_programs():
+        rep = []
+        o = render(prog, ctx_report=rep)
+        chk.count(json.dumps(prog, sort_keys=True), True, kind="%s/asvar" % prog["mode"])
+        if rep and rep[0][0] != rep[0][1] and o[0] == "ok":
+            chk.fail("c03-caller-context-changed", "Template.render left the caller's Context changed", {"program": prog, "before": rep[0][0], "after": rep[0][1]})
+        if o != ("ok", expected):
+            trig = "c03-%s-as-variable-scope" % prog["mode"]
+            chk.dist["differs:" + trig] += 1
+            chk.fail(trig, "a variable bound by an `as var` tag between the component tag and the fill is not what the fill / the template sees (%s)" % name,
+                     {"program": prog, "implementation": o, "expected": expected, **describe(prog)})
+        elif partner is not None and render(partner) != o:
+            trig = "c03-%s-noninterference" % prog["mode"]
+            chk.dist["ni-differs:" + trig] += 1
+            chk.fail(trig, "two-run non-interference fails: the outer page variable x, re-bound by an `as var` tag before the fills and never passed, changes the output (%s)" % name,
+                     {"program": prog, "program_run_B": partner, "run_A": o, "run_B": render(partner), **describe(prog)})
     for mode in ("isolated", "django"):
         cases = list(gen_cases(chk, n, mode))
         bases = [(i, p) for k, i, p in cases if k == "fresh"]
